@@ -363,6 +363,10 @@ def run(chk):
 
     chk.rule('C05-G', 'the conditions under which attaching / constructing / re-typing is refused are those of the reviewed tree: no refusal was weakened and none was extended to TOLERANT (what STRICT enforces stays enforced; TOLERANT accepts what it accepted)')
     from . import guardrules
+    chk.rule('C05-Z', 'the Z-name predicates agree: every Z segment name that the segment predicate, the parser and STRICT '
+                      'construction accept has fields that are Z fields (otherwise validate() reports a STRICT-accepted element)')
+    from . import codelemmas as _cl
+    _cl.z_name_alphabets(chk, c, 'C05-Z')
     ng_ = guardrules.check(chk, c, 'C05-G', ['core.ElementList._can_add_child', 'core.SupportComplexDataType._is_valid_child', 'core.Segment._is_valid_child', 'core.Group._is_valid_child', 'core.Component.add', 'core.Field.add', 'core.Component.add_subcomponent', 'core.CanBeVaries.__init__', 'core.Field.__init__', 'core.Component.__init__', 'core.SubComponent.__init__', 'core.Group.__init__', 'core.Segment.__init__', 'core.Element.__init__', 'core.SupportComplexDataType.__init__', 'core.SupportComplexDataType._set_datatype', 'core.SubComponent._set_datatype', 'core.SubComponent._set_value', 'core.SubComponent.add', 'core.SupportComplexDataType._set_value', 'core.ElementList.set', 'base_datatypes.BaseDataType.__init__'])
     chk.floor('refusal predicates compared (C05-G)', ng_, 1)
 
